@@ -152,3 +152,12 @@ PROPS['C14']['ek'] = [EK_NEG]
 
 EB_ACK = {'name': 'acktimeout', 'crate': 'gneiss-mqtt', 'module_dir': 'gneiss_mqtt', 'filters': ['engine::ack_timeouts'], 'tests': ['ack_timeouts_fire_exactly_at_deadline'], 'timeout': 3000}
 PROPS['C18']['eb'].append(EB_ACK)
+
+EB_WIRE_OUT = {'name': 'wire-out', 'crate': 'gneiss-mqtt', 'module_dir': 'gneiss_mqtt', 'filters': ['wire::outbound'], 'tests': ['outbound_encoding_framing_fragmentation_roundtrip'], 'timeout': 3000}
+EB_WIRE_IN = {'name': 'wire-in', 'crate': 'gneiss-mqtt', 'module_dir': 'gneiss_mqtt', 'filters': ['wire::inbound'], 'tests': ['inbound_decoding_chunking_size_limit_no_panic'], 'timeout': 3000}
+EB_INBOUND = {'name': 'inbound', 'crate': 'gneiss-mqtt', 'module_dir': 'gneiss_mqtt', 'filters': ['inbound::'], 'tests': ['inbound_publishes_acked_and_surfaced_exactly_once'], 'timeout': 3000}
+PROPS['C02']['eb'].append(EB_WIRE_OUT)
+PROPS['C03']['eb'] = [EB_WIRE_IN]
+PROPS['C05']['eb'] = [EB_INBOUND, _eb_engine(thorough_only=True)]
+PROPS['C07']['eb'] = [_eb_engine()]
+PROPS['C11']['eb'].append(EB_WIRE_IN)
